@@ -21,6 +21,10 @@ func isLoopGuard(g Guard) bool {
 		if c.Op != token.LSS {
 			return false
 		}
+		// the counted form `for i := 0; i < len(x); i++`
+		if countedIndexOver(c.X) != nil {
+			return true
+		}
 		// X = phi + 1, Y = len(...)
 		if call, ok := c.Y.(*ssa.Call); ok {
 			if b, ok := call.Call.Value.(*ssa.Builtin); ok && b.Name() == "len" {
@@ -40,6 +44,9 @@ func isLoopGuard(g Guard) bool {
 }
 
 func isRangeIndex(v ssa.Value) bool {
+	if countedIndexOver(v) != nil {
+		return true
+	}
 	b, ok := v.(*ssa.BinOp)
 	if !ok || b.Op != token.ADD {
 		return false
@@ -181,15 +188,15 @@ func rangeElemOf(v ssa.Value) ssa.Value {
 			}
 			return nil
 		}
-		if ia, ok := u.X.(*ssa.IndexAddr); ok && isRangeIndex(ia.Index) {
+		if ia, ok := u.X.(*ssa.IndexAddr); ok && indexesOwn(ia.X, ia.Index) {
 			return ia.X
 		}
 		return nil
 	}
-	if ia, ok := v.(*ssa.IndexAddr); ok && isRangeIndex(ia.Index) {
+	if ia, ok := v.(*ssa.IndexAddr); ok && indexesOwn(ia.X, ia.Index) {
 		return ia.X
 	}
-	if ix, ok := v.(*ssa.Index); ok && isRangeIndex(ix.Index) {
+	if ix, ok := v.(*ssa.Index); ok && indexesOwn(ix.X, ix.Index) {
 		return ix.X
 	}
 	return nil
@@ -221,4 +228,53 @@ func phiCycle(v ssa.Value) (phis map[*ssa.Phi]bool, inputs []ssa.Value) {
 func isSliceOf(t types.Type, elem string) bool {
 	s, ok := t.Underlying().(*types.Slice)
 	return ok && typeNameOf(s.Elem()) == elem
+}
+
+// countedIndexOver: v is the index variable of `for i := 0; i < len(x); i++` — a phi of 0 and
+// itself plus one, tested against len(x) in the block it lives in and written nowhere else;
+// returns x (the loop visits every element of x in order, like a range loop).
+func countedIndexOver(v ssa.Value) ssa.Value {
+	ph, ok := v.(*ssa.Phi)
+	if !ok || len(ph.Edges) != 2 {
+		return nil
+	}
+	zero, step := false, false
+	for _, e := range ph.Edges {
+		if k, isK := constInt(e); isK && k == 0 {
+			zero = true
+			continue
+		}
+		if b, isB := e.(*ssa.BinOp); isB && b.Op == token.ADD && b.X == ssa.Value(ph) {
+			if k, isK := constInt(b.Y); isK && k == 1 {
+				step = true
+			}
+		}
+	}
+	if !zero || !step {
+		return nil
+	}
+	blk := ph.Block()
+	iff, isIf := blk.Instrs[len(blk.Instrs)-1].(*ssa.If)
+	if !isIf {
+		return nil
+	}
+	c, isB := iff.Cond.(*ssa.BinOp)
+	if !isB || c.Op != token.LSS || c.X != ssa.Value(ph) {
+		return nil
+	}
+	if call, isCall := c.Y.(*ssa.Call); isCall {
+		if bi, isBi := call.Call.Value.(*ssa.Builtin); isBi && bi.Name() == "len" {
+			return call.Call.Args[0]
+		}
+	}
+	return nil
+}
+
+// indexesOwn: index idx visits the elements of coll itself (a range index, or a counted index
+// whose bound is len(coll)).
+func indexesOwn(coll, idx ssa.Value) bool {
+	if c := countedIndexOver(idx); c != nil {
+		return sameValue(c, coll)
+	}
+	return isRangeIndex(idx)
 }
